@@ -133,23 +133,78 @@ Qed.
 Lemma iter_next_same w sg m cur : lt_iter_next w sg m cur = lt_getitem w sg m cur.
 Proof. reflexivity. Qed.
 
-(* lists store the masked value and convert on every read path: append / index assignment, index read / iteration *)
-Lemma list_store_load w sg v : 1 <= w ->
-  lt_getitem w sg (lt_mask w) (lt_append w (lt_mask w) v) = interp sg w (wrapU w v) /\
-  lt_iter_next w sg (lt_mask w) (lt_append w (lt_mask w) v) = interp sg w (wrapU w v) /\
-  lt_getitem w sg (lt_mask w) (lt_setitem w v) = interp sg w (wrapU w v).
+(* the sign test is the top bit, for every integer (negative ones included) *)
+Lemma signtest_bit w v : 1 <= w -> negb (Z.land v (Z.shiftl 1 (w - 1)) =? 0) = Z.testbit v (w - 1).
 Proof.
-  intros Hw.
-  assert (Ha : lt_append w (lt_mask w) v = wrapU w v) by (apply land_mask; lia).
-  assert (Hs : lt_setitem w v = wrapU w v) by (apply land_mask; lia).
-  rewrite Ha, Hs.
-  assert (H : lt_getitem w sg (lt_mask w) (wrapU w v) = interp sg w (wrapU w v)).
-  { apply getitem_spec; [assumption|]. unfold wrapU. apply wrap_bound. lia. }
+  intros Hw. rewrite Z.shiftl_1_l.
+  destruct (Z.testbit v (w - 1)) eqn:Hb.
+  - destruct (Z.eqb_spec (Z.land v (2 ^ (w - 1))) 0) as [H0|]; [|reflexivity].
+    exfalso. assert (Ht : Z.testbit (Z.land v (2 ^ (w - 1))) (w - 1) = true).
+    { rewrite Z.land_spec, Hb, Z.pow2_bits_eqb, Z.eqb_refl by lia. reflexivity. }
+    rewrite H0, Z.bits_0 in Ht. discriminate.
+  - replace (Z.land v (2 ^ (w - 1))) with 0; [reflexivity|].
+    symmetry. apply Z.bits_inj'. intros n Hn. rewrite Z.land_spec, Z.bits_0, Z.pow2_bits_eqb by lia.
+    destruct (Z.eqb_spec (w - 1) n) as [<-|]; [rewrite Hb; reflexivity|apply andb_false_r].
+Qed.
+
+(* reading an element that is already stored in its declared-type reading (possibly negative) returns it unchanged *)
+Lemma getitem_stored w sg x : 1 <= w -> in_type sg w x = true -> lt_getitem w sg (lt_mask w) x = x.
+Proof.
+  intros Hw Hin. pose proof (pow2_split w Hw) as Hs. pose proof (pow2_pos (w - 1) ltac:(lia)) as Hp.
+  unfold lt_getitem, lt_mask. cbv zeta. destruct sg; [|reflexivity].
+  unfold in_type in Hin. rewrite signtest_bit by assumption.
+  destruct (Z.ltb_spec x 0) as [Hneg|Hnn].
+  - assert (Hm : x mod 2 ^ w = x + 2 ^ w).
+    { symmetry. apply Z.mod_unique with (q := -1); [left; lia|lia]. }
+    assert (Hb : Z.testbit x (w - 1) = true).
+    { rewrite <- (Z.mod_pow2_bits_low x w (w - 1)) by lia. rewrite Hm.
+      rewrite topbit by lia. destruct (Z.ltb_spec (x + 2 ^ w) (2 ^ (w - 1))); [lia|reflexivity]. }
+    rewrite Hb. rewrite land_mask by lia.
+    pose proof (Z.add_lnot_diag x). rewrite Z.mod_small by lia. lia.
+  - rewrite topbit by lia. destruct (Z.ltb_spec x (2 ^ (w - 1))); [reflexivity|lia].
+Qed.
+
+Lemma list_read_stored w sg x : 1 <= w -> in_type sg w x = true ->
+  lt_getitem w sg (lt_mask w) x = x /\ lt_iter_next w sg (lt_mask w) x = x.
+Proof.
+  intros Hw Hin. change (lt_iter_next w sg (lt_mask w) x) with (lt_getitem w sg (lt_mask w) x).
+  split; exact (getitem_stored w sg x Hw Hin).
+Qed.
+
+(* a list write stores the declared-type reading itself (same conversion as the scalar store) *)
+Lemma append_same w sg v : lt_append w sg (lt_mask w) v = tb_set_val w sg v.
+Proof. reflexivity. Qed.
+
+Lemma setitem_same w sg m v : lt_setitem w sg m v = lt_append w sg m v.
+Proof. reflexivity. Qed.
+
+Lemma list_stored w sg v : 1 <= w ->
+  lt_append w sg (lt_mask w) v = interp sg w (wrapU w v) /\
+  lt_setitem w sg (lt_mask w) v = interp sg w (wrapU w v) /\
+  in_type sg w (lt_append w sg (lt_mask w) v) = true /\
+  in_type sg w (lt_setitem w sg (lt_mask w) v) = true.
+Proof.
+  intros Hw. change (lt_setitem w sg (lt_mask w) v) with (tb_set_val w sg v).
+  change (lt_append w sg (lt_mask w) v) with (tb_set_val w sg v). rewrite set_val_spec by assumption.
+  pose proof (interp_in_type sg w v Hw). repeat split; assumption.
+Qed.
+
+(* lists store the declared-type reading; every read path (index read / iteration) returns it unchanged *)
+Lemma list_store_load w sg v : 1 <= w ->
+  lt_getitem w sg (lt_mask w) (lt_append w sg (lt_mask w) v) = interp sg w (wrapU w v) /\
+  lt_iter_next w sg (lt_mask w) (lt_append w sg (lt_mask w) v) = interp sg w (wrapU w v) /\
+  lt_getitem w sg (lt_mask w) (lt_setitem w sg (lt_mask w) v) = interp sg w (wrapU w v).
+Proof.
+  intros Hw. destruct (list_stored w sg v Hw) as (Ha & _).
+  change (lt_iter_next w sg (lt_mask w)) with (lt_getitem w sg (lt_mask w)).
+  change (lt_setitem w sg (lt_mask w) v) with (lt_append w sg (lt_mask w) v). rewrite Ha.
+  assert (H : lt_getitem w sg (lt_mask w) (interp sg w (wrapU w v)) = interp sg w (wrapU w v)).
+  { apply getitem_stored; [assumption|]. apply interp_in_type. assumption. }
   repeat split; exact H.
 Qed.
 
 Lemma paths_agree w sg v : 1 <= w ->
-  tb_get_val (tb_set_val w sg v) = lt_getitem w sg (lt_mask w) (lt_append w (lt_mask w) v).
+  tb_get_val (tb_set_val w sg v) = lt_getitem w sg (lt_mask w) (lt_append w sg (lt_mask w) v).
 Proof.
   intros Hw. destruct (store_load w sg v Hw) as [-> _].
   destruct (list_store_load w sg v Hw) as [-> _]. reflexivity.
